@@ -1,7 +1,7 @@
 import Mcp.Drv.Util
 import Mcp.Drv.Pending
 import Mcp.Model.Routing
-import Mcp.Props.C05
+import Mcp.Model.RoutingToday
 namespace Mcp.Drv.Routing
 open Lean Mcp.Drv Mcp.Str Mcp.Routing
 
@@ -65,7 +65,7 @@ def factsJson (f : Facts) : Json :=
 
 def handle (op : String) (j : Json) : Except String Json := do
   -- the region of the model family the current source is in (regenerated facts)
-  let f := Mcp.Props.C05.factsToday
+  let f := Mcp.Routing.factsToday
   match op with
   | "run" =>
     let srv ← srvOfStr (← getStr j "srv")
